@@ -166,6 +166,17 @@ def check(program: Program, run: Run) -> None:
                 run.ob("C12/R3 defining slot turns alias printing on", f"{jc.qualname}:item", good, where=f"{part.src[2]}:{part.src[1]}")
                 if not good:
                     run.finding(f"C12/defining-alias:{jc.qualname}.item", f"{jc.qualname} renders the joined item without with_alias=True: its alias is never defined", rule="R3")
+            elif isinstance(part, SlotP) and part.method == "get_sql" and isinstance(part.ctx, CtxV):
+                # the join condition (ON criterion / USING fields) is an expression position, not a defining one
+                rp = recv_path(part.recv)
+                v = part.ctx.fields["with_alias"]
+                good = v != Const(True)
+                run.ob("C12/R3 join condition is not rendered as a defining position", f"{jc.qualname}:{rp}", good, detail=f"with_alias={show(v)}",
+                       where=f"{part.src[2]}:{part.src[1]}" if part.src else "")
+                if not good:
+                    run.finding(f"C12/operand-alias:{jc.qualname}.{root_attr(rp)}",
+                                f"{jc.qualname} renders its condition `{rp}` with with_alias=True (the context made for the joined item): an aliased term inside ON/USING prints its alias mid-expression",
+                                where=f"{part.src[2]}:{part.src[1]}" if part.src else "", rule="R3")
     for bn in BUILDER_CLASSES:
         bc = program.cls(bn)
         sk, _ = render(program, bc)
